@@ -67,6 +67,43 @@ class ListGeomArray(Sort):
         return me, assumptions
 
 
+    def gen(self, rng, config):
+        """a random well-formed array of this kind as a typed record (witness search / cross-check):
+        a parent buffer with a few elements, seen through a random (offset, length) window"""
+        from pyvc.witness import gen_float
+        L = self.levels
+        n_parent = rng.choice([1, 2, 3, 4, 5])
+        # build top-down counts so that every level is consistent
+        counts = [n_parent]
+        levels = []
+        for k in range(L):
+            cur = [0]
+            for _ in range(counts[-1]):
+                if k == L - 1:
+                    cur.append(cur[-1] + 2 * rng.choice([0, 1, 1, 2, 3, 4]))
+                else:
+                    cur.append(cur[-1] + rng.choice([0, 1, 1, 2]))
+            levels.append(cur)
+            counts.append(cur[-1])
+        values = [gen_float(rng, self.finite) for _ in range(levels[-1][-1])]
+        off = rng.randint(0, n_parent)
+        ln = rng.randint(0, n_parent - off)
+        bufs = []
+        for k in range(L):
+            if self.validity and k == 0:
+                nbytes = (n_parent + 7) // 8
+                bits = [rng.randint(0, 255) | (0 if rng.random() < 0.5 else 255) for _ in range(nbytes)]
+                bufs.append({'k': 'array', 'dtype': 'uint8', 'shape': [nbytes], 'data': bits})
+            else:
+                bufs.append({'k': 'none'})
+            bufs.append({'k': 'array', 'dtype': 'uint32', 'shape': [len(levels[k])], 'data': levels[k]})
+        bufs.append({'k': 'none'})
+        bufs.append({'k': 'array', 'dtype': 'float64', 'shape': [len(values)], 'data': values})
+        rep = {'k': 'record', 'cls': 'ListArray', 'fields': {'offset': {'k': 'int', 'v': off}, 'length': {'k': 'int', 'v': ln},
+                                                            'bufs': {'k': 'tuple', 'items': bufs}}}
+        return {'k': 'record', 'cls': self.cls, 'fields': {'listarray': rep, 'data': rep}}
+
+
 def rep_of(selfv):
     return selfv.listarray
 
